@@ -143,8 +143,9 @@ Definition ip4_set_payload (p : slice) (blen : nat) (proto : N) : res slice :=
 (* func (p IP4) AppendPayload(b []byte, protocol byte) (IP4, error) *)
 Definition ip4_append (p : slice) (b : bytes) (proto : N) : res slice :=
   let blen := List.length b in
-  if Nat.ltb (cap p - len p) blen then Err EPayloadTooBig else
-  (p <- reslice p (len p + blen) ;;
+  (* repo commit 846ede1: cap(p)-HeaderLen < len(b) (integers), p[:HeaderLen+len(b)]; were relative to len(p) *)
+  if Nat.ltb (cap p) (20 + blen) then Err EPayloadTooBig else
+  (p <- reslice p (20 + blen) ;;
    let tl := u16 (20 + N.of_nat blen) in
    p <- put16 p 2 tl ;;
    ihl <- ip4_ihl p ;;
@@ -179,13 +180,13 @@ Definition udp_lenfield (blen : nat) : N := u16 (8 + u16 (N.of_nat blen)).
 Definition udp_set_payload (p : slice) (blen : nat) : res slice :=
   (p <- put16 p 4 (udp_lenfield blen) ;;
    p <- put16 p 6 0 ;;
-   reslice p (len p + blen))%res.
+   reslice p (8 + blen))%res.                 (* repo commit 02073d4: p[:UDPHeaderLen+len(b)] (was len(p)+len(b)) *)
 
 (* func (p UDP) AppendPayload(b []byte) (UDP, error) *)
 Definition udp_append (p : slice) (b : bytes) : res slice :=
   let blen := List.length b in
-  if Nat.ltb (cap p - len p) blen then Err EPayloadTooBig else
-  (p <- reslice p (len p + blen) ;;
+  if Nat.ltb (cap p) (8 + blen) then Err EPayloadTooBig else     (* 02073d4: cap(p)-UDPHeaderLen < len(b) *)
+  (p <- reslice p (8 + blen) ;;
    p <- copyfrom p 8 b ;;              (* copy(p.Payload(), b), Payload = p[8:] *)
    p <- put16 p 4 (udp_lenfield blen) ;;
    put16 p 6 0)%res.
@@ -232,13 +233,13 @@ Definition ip6_is_valid (p : slice) : res bool :=
 Definition ip6_set_payload (p : slice) (blen : nat) (nh : N) : res slice :=
   (p <- put16 p 4 (u16 (N.of_nat blen)) ;;
    p <- seti p 6 nh ;;
-   reslice p (len p + blen))%res.
+   reslice p (40 + blen))%res.                (* repo commit 952afb8: p[:IP6HeaderLen+len(b)] *)
 
 (* func (p IP6) AppendPayload(b []byte, nextHeader uint8) (IP6, error) : b == nil is rejected too *)
 Definition ip6_append (p : slice) (b : bytes) (b_is_nil : bool) (nh : N) : res slice :=
   let blen := List.length b in
-  if b_is_nil || Nat.ltb (cap p - len p) blen then Err EPayloadTooBig else
-  (p <- reslice p (len p + blen) ;;
+  if b_is_nil || Nat.ltb (cap p) (40 + blen) then Err EPayloadTooBig else   (* 952afb8: cap(p)-IP6HeaderLen < len(b) *)
+  (p <- reslice p (40 + blen) ;;
    p <- put16 p 4 (u16 (N.of_nat blen)) ;;          (* payload length first: Payload() spans it (31b163e) *)
    pl <- ip6_payloadlen p ;;
    p <- copyto p 40 (40 + N.to_nat pl) b ;;          (* copy(p.Payload(), b) *)
@@ -501,13 +502,13 @@ Definition dns_decode_lib (p : slice) : res dns_view :=
 Definition buf_after (p : slice) (r : res slice) : bytes := match r with Ok s => arr s | _ => arr p end.
 
 Definition ip4_append_st (p : slice) (b : bytes) (proto : N) : res slice * bytes :=
-  if Nat.ltb (cap p - len p) (List.length b) then (Err EPayloadTooBig, arr p)
+  if Nat.ltb (cap p) (20 + List.length b) then (Err EPayloadTooBig, arr p)
   else let r := ip4_append p b proto in (r, buf_after p r).
 Definition udp_append_st (p : slice) (b : bytes) : res slice * bytes :=
-  if Nat.ltb (cap p - len p) (List.length b) then (Err EPayloadTooBig, arr p)
+  if Nat.ltb (cap p) (8 + List.length b) then (Err EPayloadTooBig, arr p)
   else let r := udp_append p b in (r, buf_after p r).
 Definition ip6_append_st (p : slice) (b : bytes) (b_is_nil : bool) (nh : N) : res slice * bytes :=
-  if b_is_nil || Nat.ltb (cap p - len p) (List.length b) then (Err EPayloadTooBig, arr p)
+  if b_is_nil || Nat.ltb (cap p) (40 + List.length b) then (Err EPayloadTooBig, arr p)
   else let r := ip6_append p b b_is_nil nh in (r, buf_after p r).
 Definition ether_append_st (p : slice) (payload : bytes) (pcap : nat) : res slice * bytes :=
   if Nat.ltb (cap p) (List.length payload + 14) then (Err EPayloadTooBig, arr p)
